@@ -271,6 +271,32 @@ def run(case):
         a = int(np.unravel_index(e.argmax(), e.shape)[0])
         bad(f"degree/node={a}", "degree bound exceeded: function is not a polynomial of per-axis degree <= D", float(e.max()), f"per-axis degree <= {D}")
 
+    # (v') the same polynomials OUTSIDE the reference cell (tools.extrapolate evaluates the linear families at the inverse Gauss
+    # points +-sqrt(3)): the polynomial through the lattice values, continued beyond [lo, hi], and its derivative
+    mid, half = 0.5 * (lo + hi), 0.5 * (hi - lo)
+    yo = mid + half * np.array([-np.sqrt(3.0), -1.4, 1.25, np.sqrt(3.0)])
+    Lo = bary_matrix(x, yo)
+    Ho = H
+    for k in range(dim):
+        Ho = apply_axis(Lo, Ho, 1 + k)
+    Hyo = tab(el.function, [yo] * dim)
+    ntrans += len(yo) ** dim
+    amp = max(np.abs(Lo).sum(1).max() ** dim, 1.0)
+    eo = np.abs(Ho - Hyo)
+    if eo.max() > TOL * amp * max(np.abs(Hyo).max(), 1.0):
+        a = int(np.unravel_index(eo.argmax(), eo.shape)[0])
+        bad(f"outside-cell/function/node={a}", "function evaluated outside the reference cell is not the continuation of the polynomial it is inside", float(eo.max()), 0)
+    for k in range(dim):
+        Go = apply_axis(Dm, H, 1 + k)
+        for kk in range(dim):
+            Go = apply_axis(Lo, Go, 1 + kk)
+        Gyo = tab(el.gradient, [yo] * dim)[:, k]
+        ego = np.abs(Go - Gyo)
+        if ego.max() > TOL * amp * 10 * max(np.abs(Gyo).max(), 1.0) * (n ** 2):
+            a = int(np.unravel_index(ego.argmax(), ego.shape)[0])
+            bad(f"outside-cell/gradient/node={a}/comp={k}", "gradient evaluated outside the reference cell is not the derivative of the continued polynomial", float(ego.max()), 0)
+    ntrans += len(yo) ** dim
+
     # (i) gradient = spectral derivative of function, entry by entry
     for k in range(dim):
         ref = apply_axis(Dm, H, 1 + k)
